@@ -12,7 +12,8 @@ RULE = 'graphs with 1-2 feedback loops (with/without initial value, reader activ
 TRUSTED = ['engine programs use TS[int] feedback; structured feedback (TSB/TSL/TSS/TSD) is exercised by the fbshape stream'] + list(fs.TRUSTED)
 ASSUMPTIONS = ["the source ranks before its readers and the sink after the producer (C01); the sink's request for t+1 is honoured (C02)"]
 TECHNIQUE = 'Lean 4 proof (single-slot feedback state machine: delivered stream = writes shifted by MIN_TD, by induction over arbitrary cycle lists) + shared definitions with the engine model + differential correspondence + reference monitor'
-LEVEL_TEXT = "Kernel-checked for every write history: the reader's ticks are exactly the producer's writes one smallest step later, in order, without loss or duplication; never in the producing cycle; an initial value arrives at the start time; no writes, no deliveries (quiescence). The engine model uses these same step functions and is compared with the runtime."
+LEVEL_TEXT = ("Kernel-checked for every write history: the reader's ticks are exactly the producer's writes one smallest step later, in order, without loss or duplication; never in the producing cycle; an initial value arrives at the start time; no writes, no deliveries (quiescence). The engine model uses these same step functions and is compared with the runtime."
+              " Structured feedback shapes (Props/C08Shape.lean, stream fbshape; TSB / nested TSB / TSL / TSS / TSD as delta-valued ticks): the delivered delta stream is the written delta stream one smallest step later, a position ticks at the reader iff it was written one step earlier (no_spurious_field_tick), the reader's value is the fold of the written deltas, and not clearing the captured state is unobservable.")
 LEVEL_NOTE = 'Trusted: Lean kernel; model tied by correspondence. The tie on evaluation_time + MIN_TD is by correspondence (a changed delay changes every delivery time).'
 
 
